@@ -485,9 +485,11 @@ def _uq_cur(m, k):
     pc = "pix_check[p]"
     return (["0 <= pix_size", "pix_size <= (%s) * max_pix_mappings + %s" % (m, k)]
             + _uq_row("data_to_pix_unique", "data_weights", "pix_size", mf)
-            + ["forall(0, pix_size, lambda c: pix_check[toint(data_to_pix_unique[ip, c])] == c)",
-               "forall(0, PP, lambda p: {pc} == -1 or ({pc} == toreal(toint({pc})) and 0 <= toint({pc}) and toint({pc}) < pix_size"
-               " and data_to_pix_unique[ip, toint({pc})] == p))".format(pc=pc),
+            # pix_check and the listed columns are mutually inverse tables (stated without nested indices, so that the clauses
+            # do not feed each other's triggers)
+            + ["forall(0, pix_size, lambda c: forall(0, PP, lambda p: implies(data_to_pix_unique[ip, c] == p, pix_check[p] == c)))",
+               "forall(0, PP, lambda p: forall(0, pix_size, lambda c: implies(pix_check[p] == c, data_to_pix_unique[ip, c] == p)))",
+               "forall(0, PP, lambda p: {pc} == toreal(toint({pc})) and ({pc} == -1 or (0 <= {pc} and {pc} < pix_size)))".format(pc=pc),
                "forall(0, PP, lambda p: implies({pc} == -1, {mf} == 0))".format(pc=pc, mf=mf("p"))])
 
 
@@ -502,7 +504,15 @@ contract(
             + _uq_done("result[0]", "result[1]", "result[2]", "DP"),
     loops={
         0: {"inv": ["ip_sub_start == c06_off(ss, ip)"] + _uq_done("data_to_pix_unique", "data_weights", "pix_lengths", "ip") + _uq_untouched("ip"),
-            "assert_at": {0: ["sub_fraction[ip] == 1 / (ss[ip] * ss[ip])"]}},
+            "assert_at": {0: ["sub_fraction[ip] == 1 / (ss[ip] * ss[ip])"],
+                          # row ip is complete (after the sub-pixel loop): the inverse tables give distinct columns, and a source
+                          # pixel that is not listed was never named, so its matrix entry is zero
+                          4: ["forall(0, pix_size, lambda c: pix_check[toint(data_to_pix_unique[ip, c])] == c)",
+                              "forall(0, pix_size, lambda c1: forall(0, pix_size, lambda c2: implies(c1 != c2, data_to_pix_unique[ip, c1] != data_to_pix_unique[ip, c2])))",
+                              "forall(0, PP, lambda p: pix_check[p] == -1 or (0 <= toint(pix_check[p]) and toint(pix_check[p]) < pix_size"
+                              " and data_to_pix_unique[ip, toint(pix_check[p])] == p))",
+                              "forall(0, PP, lambda p: implies(forall(0, pix_size, lambda c: data_to_pix_unique[ip, c] != p), pix_check[p] == -1))",
+                              "forall(0, PP, lambda p: implies(forall(0, pix_size, lambda c: data_to_pix_unique[ip, c] != p), " + _ME("p") + " == 0))"]}},
         1: {"inv": _uq_done("data_to_pix_unique", "data_weights", "pix_lengths", "ip") + _uq_untouched("ip + 1") + _uq_cur(_M1, "0"),
             "assert_at": {0: ["ip_sub_end == c06_off(ss, ip + 1)", "c06_off(ss, ip + 1) <= T", "0 <= ip_sub and ip_sub < T",
                               "ip_sub == c06_off(ss, ip) + (" + _M1 + ")"],
@@ -729,21 +739,26 @@ corollary("C06.rectangular_rows_sum_to_one", props=["C06"],
 _CELL = ("0 <= c06_rowof(H, W, p) and c06_rowof(H, W, p) < {n} and 0 <= c06_colof(H, W, p) and c06_colof(H, W, p) < W"
          " and c06_flat(H, W, c06_rowof(H, W, p), c06_colof(H, W, p)) == p")
 spec_fn("c06_rowof", params=[("H", "$int"), ("W", "$int"), ("p", "int")], ret="int",
-        axioms=["forall(0, H, lambda r: forall(0, W, lambda c: c06_rowof(H, W, " + _FL("r", "c") + ") == r, pat=" + _FL("r", "c") + "))"],
+        axioms=["forall(0, H, lambda r: forall(" + _FL("r", "0") + ", " + _FL("r", "0") + " + W, lambda p: c06_rowof(H, W, p) == r,"
+                " pat=((c06_rowof(H, W, p), " + _FL("r", "0") + "),)))"],
         py=lambda H, W, p: int(p // W) if W > 0 else 0, doc="row of the cell with flat index p")
 spec_fn("c06_colof", params=[("H", "$int"), ("W", "$int"), ("p", "int")], ret="int",
-        axioms=["forall(0, H, lambda r: forall(0, W, lambda c: c06_colof(H, W, " + _FL("r", "c") + ") == c, pat=" + _FL("r", "c") + "))"],
+        axioms=["forall(0, H, lambda r: forall(" + _FL("r", "0") + ", " + _FL("r", "0") + " + W, lambda p: c06_colof(H, W, p) == p - " + _FL("r", "0") + ","
+                " pat=((c06_colof(H, W, p), " + _FL("r", "0") + "),)))"],
         lemmas=[dict(name="surj", induct="n", lo=0, hi="H", hints=[_FL("n", "0"), _FL("n + 1", "0")], export=False,
                      stmt="forall(0, " + _FL("n", "0") + ", lambda p: implies(W >= 1 and H >= 0, " + _CELL.format(n="n") + "), pat=c06_rowof(H, W, p))"),
                 dict(name="surj_all", noinduct=True, hints=[_FL("H", "0")],
                      stmt="forall(0, H * W, lambda p: implies(W >= 1 and H >= 0, " + _CELL.format(n="H") + "), pat=c06_rowof(H, W, p))")],
         py=lambda H, W, p: int(p % W) if W > 0 else 0, doc="column of the cell with flat index p")
 
+_CF = lambda p: _FL("c06_rowof(H, W, %s)" % p, "c06_colof(H, W, %s)" % p)          # p written through its cell: flat(rowof(p), colof(p))
 _LP = "(" + " or ".join("R[0][{a}, %d] == {b}" % k for k in range(4)) + ")"
-_ISCELL = lambda p: "0 <= c06_rowof(H, W, {p}) and c06_rowof(H, W, {p}) < H and 0 <= c06_colof(H, W, {p}) and c06_colof(H, W, {p}) < W".format(p=p)
+_ISCELL = lambda p: ("0 <= c06_rowof(H, W, {p}) and c06_rowof(H, W, {p}) < H and 0 <= c06_colof(H, W, {p}) and c06_colof(H, W, {p}) < W"
+                     " and " + _CF(p) + " == {p}").format(p=p)
 corollary("C06.rect_neighbors_symmetric", props=["C06", "C07"],
           vars={"shape_native": "(int,int)"}, let={"H": "shape_native[0]", "W": "shape_native[1]"}, requires=["H >= 3", "W >= 3"],
           calls=[("R", ME + "rectangular_neighbors_from", {"shape_native": "shape_native"})],
+          # every pixel index is the flat index of its cell (so `_CF(p)` below IS p), and q is listed for p iff p is listed for q
           ensures=["forall(0, H * W, lambda p: forall(0, H * W, lambda q: " + _ISCELL("p") + " and " + _ISCELL("q")
-                   + " and iff(" + _LP.format(a="p", b="q") + ", " + _LP.format(a="q", b="p") + ")))"],
+                   + " and iff(" + _LP.format(a=_CF("p"), b=_CF("q")) + ", " + _LP.format(a=_CF("q"), b=_CF("p")) + ")))"],
           sentence="source-pixel neighbour lists are symmetric: q is in neighbors[p] iff p is in neighbors[q], for all pixel indices")
